@@ -25,7 +25,7 @@ import (
 // ---------------------------------------------------------------------------------------------
 
 type omOp struct {
-	Kind     string `json:"kind"` // vote | exec | govset | bond | adddelegate | unbond | rebond | endblock | confirm
+	Kind     string `json:"kind"` // vote | exec | govset | bond | adddelegate | unbond | rebond | leave | endblock | confirm
 	O        int    `json:"o,omitempty"`
 	NonceSel int    `json:"nonce_sel,omitempty"` // 0 own+1, 1 lastobs+1, 2 own, 3 own+2, 4 far
 	Variant  int    `json:"variant,omitempty"`
@@ -97,7 +97,7 @@ func genOmCase(t *rapid.T, maxOracles, maxOps int) omCase {
 				omOp{Kind: "vote", O: o, NonceSel: rapid.SampledFrom([]int{2, 2, 1, 0}).Draw(t, "srsel"), Variant: rapid.IntRange(0, 1).Draw(t, "srv2")})
 			continue
 		}
-		k := rapid.SampledFrom([]string{"vote", "vote", "vote", "vote", "vote", "vote", "vote", "exec", "exec", "govset", "bond", "adddelegate", "unbond", "rebond", "endblock", "confirm"}).Draw(t, "kind")
+		k := rapid.SampledFrom([]string{"vote", "vote", "vote", "vote", "vote", "vote", "vote", "exec", "exec", "govset", "bond", "adddelegate", "unbond", "rebond", "leave", "endblock", "confirm"}).Draw(t, "kind")
 		op := omOp{Kind: k, O: rapid.IntRange(0, c.N-1).Draw(t, "o")}
 		switch k {
 		case "vote":
@@ -161,6 +161,7 @@ type omStats struct {
 	membershipOpen bool // stake / membership change while an attestation was open
 	observedMulti  bool // observed with >= 2 voters and unequal stakes
 	rebond         bool
+	leftOpen       bool
 	steps          int
 }
 
@@ -432,8 +433,9 @@ func runOracleMachine(c omCase, which string, rec *ev.Recorder) *Failure {
 		case "unbond":
 			r := f.RunMsg(sctx, &crosschaintypes.MsgUnbondedOracle{ChainName: ch, OracleAddress: keys[o].Oracle.Acc().String()})
 			_ = r
-		case "rebond":
+		case "rebond", "leave":
 			// governance removes oracle o, o withdraws (record + cursor deleted), governance re-approves, o bonds again
+			// ("leave" stops after the withdrawal: votes the oracle cast earlier stay in open attestations although it is no longer registered)
 			var list []string
 			for i := range keys {
 				if i != o && approved[i] {
@@ -458,6 +460,14 @@ func runOracleMachine(c omCase, which string, rec *ev.Recorder) *Failure {
 			}
 			if r := f.RunMsg(sctx, &crosschaintypes.MsgUnbondedOracle{ChainName: ch, OracleAddress: keys[o].Oracle.Acc().String()}); !r.OK() {
 				delete(approved, o)
+				break
+			}
+			if op.Kind == "leave" {
+				delete(approved, o)
+				if open {
+					st.membershipOpen = true
+					st.leftOpen = true
+				}
 				break
 			}
 			list = append(list, keys[o].Oracle.Acc().String())
@@ -533,6 +543,9 @@ func runOracleMachine(c omCase, which string, rec *ev.Recorder) *Failure {
 	}
 	if st.membershipOpen {
 		labels = append(labels, "membership-change-while-open")
+	}
+	if st.leftOpen {
+		labels = append(labels, "oracle-withdrew-while-attestation-open")
 	}
 	if st.rebond {
 		labels = append(labels, "rebond-cycle")
